@@ -162,7 +162,7 @@ class C04(Prop):
     props_file = "Props/C04.v"
     preamble = ("From Coq Require Import List ZArith QArith.\nImport ListNotations.\n"
                 "From PP Require Import Model.C04.\nOpen Scope Q_scope.\n")
-    n_cases = (20, 30)
+    n_cases = (20, 20)
     design_ref = "DESIGN.md §5 C04"
     level_text = (
         "METHOD-level Coq theorems over any commutative ring plus per-instance certificates. "
@@ -213,7 +213,7 @@ class C04(Prop):
             "fractures meeting in one point, unit cube with 0-3 orthogonal fractures (thorough)}; "
             "Cartesian (quick) / simplex (thorough); constitutive laws: standard (1/2), DarcysLawAd, "
             "FouriersLawAd, both (energy); compressible and incompressible fluid; random "
-            "dyadic material constants and time step; 3 (quick) / 6 (thorough) random states per "
+            "dyadic material constants and time step; 3 (quick) / 5 (thorough) random states per "
             "configuration incl. an all-zero-interface-flux state; non-trivial = at least one "
             "fracture and a non-zero interface flux; distinct by (case, output)")
     trusted = ["float -> exact rational conversion of the evaluated AD operators; tolerance band "
@@ -239,7 +239,7 @@ class C04(Prop):
 
     def generate(self, rng, n, tier):
         quick = tier == "quick"
-        nstates = 3 if quick else 6
+        nstates = 3 if quick else 5
         for i in range(n):
             physics = "flow" if i % 2 == 0 else "energy"
             r = rng.random()
@@ -250,7 +250,7 @@ class C04(Prop):
             if geometry == "square":
                 fr = rng.choice([[], [0], [1], [0, 1], [0, 1]])
                 grid_type = "cartesian" if (quick or rng.random() < 0.5) else "simplex"
-                cell_size = rng.choice([0.5, 0.25] if quick else [0.5, 0.25, 0.25, 0.125])
+                cell_size = rng.choice([0.5, 0.25] if quick else [0.5, 0.25, 0.25])
                 if grid_type == "simplex":
                     cell_size = rng.choice([0.5, 0.25])
             elif geometry == "rect3":
